@@ -218,6 +218,17 @@ class Celestial(Dynamics, metaclass=ABCMeta):
             # Retrieve final time, this should auto-exit the loop if fully-integrated
             initial_time = solution.t[-1] + spacing(solution.t[-1])
 
+            # A waiting finite thrust whose start coincides with the event that just stopped the integration has its
+            # root behind the restart time and would never fire in this call: arm it now.
+            if initial_time < final_time:
+                for event in events:
+                    if (
+                        isinstance(event, ScheduledFiniteThrust)
+                        and not event._thrusting  # noqa: SLF001
+                        and event.start_time < initial_time < event.end_time
+                    ):
+                        self.finite_thrust = event.getStateChangeCallback(initial_time)
+
         # Return final state from the solver
         return (
             initial_state.flatten() if state_shape[1] == 1 else initial_state.reshape(state_shape)
